@@ -127,7 +127,7 @@ Theorem frames_and_code_internal :
        [KFunction; KMethod; KType; KCode; KTraceback; KFrame; KGenerator; KCoroutine; KAsyncGen; KOther] = true.
 Proof. vm_compute. reflexivity. Qed.
 """
-    ctx.coq_obligation("SbxGenC17", v, n_obligations=1)
+    sbx_src_tie.checked_obligation(ctx, "SbxGenC17", v, 1)
     return facts
 
 
@@ -412,13 +412,26 @@ def k_gen(ctx, jinja2, n_expr, n_tmpl, prop):
 
 
 # ------------------------------------------------------------------ render oracle
-def render_outcome(env, cache, src, data):
+def render_outcome(env, cache, src, data, entry="render"):
+    """entry: render / generate / stream / render_async (driven by asyncio.run) / make_module"""
+    import asyncio
     from jinja2.exceptions import SecurityError, UndefinedError
     try:
         t = cache.get(src)
         if t is None:
             t = cache[src] = env.from_string(src)
-        return "ok:" + ADDR.sub("0x", t.render(**data))
+        is_async = bool(env.is_async)
+        if entry == "generate" and not is_async:
+            out = "".join(t.generate(**data))
+        elif entry == "stream" and not is_async:
+            out = "".join(t.stream(**data))
+        elif entry == "render_async" and is_async:
+            out = asyncio.run(t.render_async(**data))
+        elif entry == "make_module" and not is_async:
+            out = str(t.make_module(data))
+        else:
+            out = t.render(**data)
+        return "ok:" + ADDR.sub("0x", out)
     except SecurityError:
         return "SecurityError"
     except UndefinedError:
@@ -430,7 +443,9 @@ def render_outcome(env, cache, src, data):
 def judge_render(ctx, envs, case):
     from jinja2 import sandbox as sb
     b, n, path, mode = case["base"], case["name"], case["path"], case["mode"]
-    env, cache = envs[mode]
+    key = mode + (":" + case["config"] if case.get("config") else "")
+    entry = case.get("entry", "render")
+    env, cache = envs[key]
     src = ob.ACCESS[path] % {"b": b, "n": n}
     ctl = ob.ACCESS[path] % {"b": b, "n": "nosuchattr_zz"}
     data, close = ob.tracer_data()
@@ -438,16 +453,29 @@ def judge_render(ctx, envs, case):
         base_obj = dict(ob.BASES)[b](data)
         exists = ob.attrstat(base_obj, n) not in ("none", None)
         unsafe = n.startswith("_") or bool(sb.is_internal_attribute(base_obj, n)) or spec_internal(base_obj, n)
-        out = render_outcome(env, cache, src, data)
+        out = render_outcome(env, cache, src, data, entry)
         case.update(template=src, outcome=out[:200], exists=exists, unsafe=unsafe)
+        if case.get("fresh"):
+            # history: the long-lived environment (thousands of earlier renders) against a brand-new one
+            data3, close3 = ob.tracer_data()
+            try:
+                out3 = render_outcome(fresh_env_like(key), {}, src, data3, entry)
+            finally:
+                close3()
+            if out3 != out:
+                ctx.model_mismatch("history: a used environment renders what a fresh environment renders", case, out3[:120], out[:120],
+                                   "the sentinel appears only with history" if ob.SENT in out else None, f"C17:render:history:{path}:{n}")
+                return False
         if ob.SENT in out:
             reject_once(ctx, case, f"the sentinel of a private attribute appears in the output of {src!r} ({mode})",
                         f"C17:render:sentinel:{path}:{n}")
             return False
+        if b == "rz" and out == "exc:RuntimeError":
+            return True       # the data's own attribute protocol raised: its exception propagates, nothing is handed out
         if unsafe and out != "SecurityError":
             data2, close2 = ob.tracer_data()
             try:
-                ctl_out = render_outcome(env, cache, ctl, data2)
+                ctl_out = render_outcome(env, cache, ctl, data2, entry)
             finally:
                 close2()
             norm = lambda s: s.replace("nosuchattr_zz", n)   # noqa: E731 - messages mention the name
@@ -529,6 +557,15 @@ def first_unsafe_step(value, chain, form):
             return None
         obj = nxt[0]
     return None
+
+
+CORE_PATHS = ("macro-param-named-loop", "real-loop-variable", "dot", "subscript", "attr-filter", "call", "format-attr", "format-stored", "map-attribute", "subscript-strsubclass",
+              "sort-multi", "loop-over", "index-dotted", "trans-variable")
+
+
+def hash_of(*parts):
+    import zlib
+    return zlib.crc32("|".join(map(str, parts)).encode())
 
 
 def make_literal_envs():
@@ -649,9 +686,36 @@ def import_stream(ctx):
                     ctx.validated()
 
 
+RENDER_CONFIGS = ("", "", "immutable", "autoescape", "noopt", "overlay")
+RENDER_ENTRIES = ("render", "generate", "stream", "render_async", "make_module")
+
+
 def make_render_envs():
-    from jinja2.sandbox import SandboxedEnvironment
-    return {"sync": (SandboxedEnvironment(), {}), "async": (SandboxedEnvironment(enable_async=True), {})}
+    """sandboxed environments per (mode, configuration): the plain one, the immutable class, autoescape, the
+    unoptimized compile, an overlay; all with the do / i18n / loopcontrols extensions"""
+    from jinja2.sandbox import ImmutableSandboxedEnvironment, SandboxedEnvironment
+    ext = ["jinja2.ext.do", "jinja2.ext.i18n", "jinja2.ext.loopcontrols"]
+    envs = {}
+    for mode in ("sync", "async"):
+        kw = dict(enable_async=(mode == "async"), extensions=ext)
+        base = SandboxedEnvironment(**kw)
+        variants = {"": base, "immutable": ImmutableSandboxedEnvironment(**kw), "autoescape": SandboxedEnvironment(autoescape=True, **kw),
+                    "noopt": SandboxedEnvironment(optimized=False, **kw), "overlay": base.overlay(trim_blocks=True)}
+        for cfg, e in variants.items():
+            e.install_null_translations()
+            envs[mode if cfg == "" else mode + ":" + cfg] = (e, {})
+    return envs
+
+
+def fresh_env_like(key):
+    from jinja2.sandbox import ImmutableSandboxedEnvironment, SandboxedEnvironment
+    mode, _, cfg = key.partition(":")
+    kw = dict(enable_async=(mode == "async"), extensions=["jinja2.ext.do", "jinja2.ext.i18n", "jinja2.ext.loopcontrols"])
+    e = {"": lambda: SandboxedEnvironment(**kw), "immutable": lambda: ImmutableSandboxedEnvironment(**kw),
+         "autoescape": lambda: SandboxedEnvironment(autoescape=True, **kw), "noopt": lambda: SandboxedEnvironment(optimized=False, **kw),
+         "overlay": lambda: SandboxedEnvironment(**kw).overlay(trim_blocks=True)}[cfg]()
+    e.install_null_translations()
+    return e
 
 
 def run(ctx):
@@ -664,26 +728,48 @@ def run(ctx):
         "C-level types expose only the attributes dir() lists (K-attr enumerates them on the running interpreter)",
         "an Undefined / SecurityError-undefined gives no access to the object it was created for (Undefined has no public attributes)",
     ]
+    import time as _time
+    _t0 = _time.time()
+    timing = ctx.extra.setdefault("timing_s", {})
+
+    def lap(name):
+        nonlocal _t0
+        timing[name] = round(_time.time() - _t0, 1)
+        _t0 = _time.time()
     ctx.proof("C17")
+    lap("proof")
     # T5: the current source of is_internal_attribute, is_safe_attribute, getattr and getitem, interpreted
     # in Coq, equals the model functions for every table, object tree and name / key
     sbx_src_tie.source_equations_paths(ctx)
     # regenerated routing decision table of the compiler's visitors (what C17_codegen_no_raw_attr relies on)
     sbx_src_tie.routing_table(ctx)
+    lap("source_equations_and_routes")
     facts = regenerate(ctx)
+    lap("regenerated_tables")
     env = SandboxedEnvironment()
     if facts is not None:
         k_attr(ctx, facts, env)
         k_rt_single(ctx, facts, env)
         k_rt_paths(ctx, facts, env)
+    lap("k_attr_rt_paths")
     k_gen(ctx, jinja2, ctx.size(1500, 15000), ctx.size(250, 2500), "C17")
+    lap("k_gen")
     envs = make_render_envs()
     names = ob.PRIVATE_NAMES + ob.PUBLIC_NAMES
     for (b, _), n, path, mode in itertools.product(ob.BASES, names, ob.ACCESS, ("sync", "async")):
         if ctx.tier != "thorough" and mode == "async" and path not in ("dot", "format-attr", "map-attribute", "attr-filter", "call", "format-stored"):
             continue
-        case = {"kind": "render", "base": b, "name": n, "path": path, "mode": mode}
+        if "%(b)s" not in ob.ACCESS[path] and b != "o":
+            continue          # a path with a fixed base object is one case, not one per base
+        h = hash_of(b, n, path, mode)
+        if ctx.tier != "thorough" and path not in CORE_PATHS and h % 8 != 0:
+            continue          # quick tier: the core paths for every (base, name), the other paths sampled
+        case = {"kind": "render", "base": b, "name": n, "path": path, "mode": mode,
+                "config": RENDER_CONFIGS[h % len(RENDER_CONFIGS)], "entry": RENDER_ENTRIES[(h // 7) % len(RENDER_ENTRIES)],
+                "fresh": h % 40 == 0}
         ok = judge_render(ctx, envs, case)
+        ctx.count("config_" + (case["config"] or "default"))
+        ctx.count("entry_" + case["entry"])
         nontriv = case.get("exists") and case.get("unsafe")
         ctx.case(sample=case if nontriv and path == "format-stored" else None,
                  key=("render", b, n, path, mode) if nontriv else None)
@@ -692,8 +778,11 @@ def run(ctx):
             ctx.validated()
 
 
+    lap("render_stream")
     literal_stream(ctx)
+    lap("literal_stream")
     import_stream(ctx)
+    lap("import_stream")
     for path, mode in itertools.product(ob.HOST_FORMAT, ("sync", "async")):
         case = {"kind": "host-format", "path": path, "mode": mode}
         ok = judge_host_format(ctx, envs, case)
@@ -712,7 +801,7 @@ def replay(ctx, data):
     from jinja2.sandbox import SandboxedEnvironment
     kind = case.get("kind")
     if kind == "render":
-        judge_render(ctx, make_render_envs(), {k: case[k] for k in ("kind", "base", "name", "path", "mode")})
+        judge_render(ctx, make_render_envs(), {k: case[k] for k in ("kind", "base", "name", "path", "mode", "config", "entry") if k in case})
     elif kind == "literal":
         judge_literal(ctx, make_literal_envs(), {k: case[k] for k in ("kind", "literal", "chain", "form", "wrap", "env", "mode")})
     elif kind == "host-format":
